@@ -19,9 +19,22 @@ def fixOfJson (j : Json) : Except String Fix := do
   | .ok s => throw s!"bad fix {s}"
   | .error _ =>
     let g := fun (n : String) => (j.getObjVal? n >>= Json.getBool?).toOption.getD false
-    pure { d1 := g "d1", d2 := g "d2", d9 := g "d9" }
+    pure { d1 := g "d1", d2 := g "d2", d9 := g "d9", dr := g "dr", d10 := g "d10" }
 
-def bookOpOfJson (j : Json) : Except String Op := do
+def arithOfJson (j : Json) : Except String Arith := do
+  let t ← j.getObjVal? "t" >>= Json.getStr?
+  match t with
+  | "addC" => do pure (.addC (← j.getObjVal? "c" >>= ratOfJson))
+  | "subC" => do pure (.subC (← j.getObjVal? "c" >>= ratOfJson))
+  | "mulC" => do pure (.mulC (← j.getObjVal? "c" >>= ratOfJson))
+  | "divC" => do pure (.divC (← j.getObjVal? "c" >>= ratOfJson))
+  | "pow" => do pure (.pow (← j.getObjVal? "e" >>= Json.getInt?))
+  | "addD" => do pure (.addD (← j.getObjVal? "q" >>= polyOfJson))
+  | "subD" => do pure (.subD (← j.getObjVal? "q" >>= polyOfJson))
+  | "mulD" => do pure (.mulD (← j.getObjVal? "q" >>= polyOfJson))
+  | _ => throw s!"bad arith {t}"
+
+partial def bookOpOfJson (fx : Fix) (j : Json) : Except String Op := do
   let t ← j.getObjVal? "t" >>= Json.getStr?
   match t with
   | "set" => do pure (.setitem (← j.getObjVal? "k" >>= natList) (← j.getObjVal? "v" >>= ratOfJson))
@@ -43,6 +56,23 @@ def bookOpOfJson (j : Json) : Except String Op := do
     pure (.cons (← j.getObjVal? "rel" >>= Json.getStr? >>= relOfString14) (← j.getObjVal? "P" >>= polyOfJson)
       (← j.getObjVal? "lam" >>= ratOfJson) (← j.getObjVal? "lt" >>= Json.getBool?)
       (← j.getObjVal? "lo" >>= optRat) (← j.getObjVal? "hi" >>= optRat))
+  | "round" => do
+    let nd := j.getObjVal? "nd" |>.toOption |>.bind (fun v => v.getInt?.toOption)
+    pure (.round nd)
+  | "subs" => pure .subs
+  | "cast" => do pure (.cast (← j.getObjVal? "kind" >>= kindOfJson))
+  | "bin" => do pure (.bin (← j.getObjVal? "a" >>= arithOfJson))
+  | "neg" => pure (.bin (.mulC (-1)))          -- `-H` is `-1 * H`
+  | "pos" => pure .copy                        -- `+H` is `H.copy()`
+  | "rsubC" => do pure (.rsubC (← j.getObjVal? "c" >>= ratOfJson))
+  | "remap" => pure .remap
+  | "updateM" => do
+    -- the argument model is given by its own history on a fresh object
+    let arg ← j.getObjVal? "arg"
+    let κg ← arg.getObjVal? "kind" >>= kindOfJson
+    let sub ← (← arg.getObjVal? "hist" >>= Json.getArr?).toList.mapM (bookOpOfJson fx)
+    let g := run fx κg sub
+    pure (.updateM g.kind g.terms g.constraints g.ancilla)
   | _ => throw s!"bad edit {t}"
 
 def natArr (l : List Nat) : Json := Json.arr (l.map (fun (n : Nat) => (n : Json))).toArray
@@ -74,7 +104,7 @@ def handleBook (j : Json) : Except String Json := do
   let fx ← match j.getObjVal? "fix" with
     | .ok f => fixOfJson f
     | .error _ => pure Fix.current
-  let ops ← (← j.getObjVal? "hist" >>= Json.getArr?).toList.mapM bookOpOfJson
+  let ops ← (← j.getObjVal? "hist" >>= Json.getArr?).toList.mapM (bookOpOfJson fx)
   let tr := trace fx (init κ) ops
   -- `ConsFresh` (the hypothesis `Op.Fresh` of `anc_history_partial`) for every constraint edit, at the counter
   -- it is executed with
